@@ -21,12 +21,7 @@
    with [useInt] and [unit = 0] (integer division by zero; the JSON encoder
    has the same precondition). *)
 From Verif Require Import Base.Prelude Base.CborSpec.
-Require Coq.Strings.String Coq.Strings.Ascii.
 Open Scope N_scope.
-
-(* a Go string literal as bytes *)
-Definition str (s : String.string) : list N :=
-  map (fun c => Ascii.N_of_ascii c) (String.list_ascii_of_string s).
 
 Definition len {A} (s : list A) : N := N.of_nat (length s).
 
@@ -202,17 +197,20 @@ Definition cbor_AppendFloat64 (dst : list N) (val : N) : list N :=
 Definition cbor_AppendFloats32 := cbor_slice cbor_AppendFloat32.
 Definition cbor_AppendFloats64 := cbor_slice cbor_AppendFloat64.
 
+Definition lit_marshaling_error : list N := [109;97;114;115;104;97;108;105;110;103;32;101;114;114;111;114;58;32].  (* "marshaling error: " *)
+Definition lit_nil : list N := [60;110;105;108;62].  (* "<nil>" *)
+
 (* AppendInterface: [m] is what JSONMarshalFunc returned: [inl json] or
    [inr (text of err)] (fmt.Sprintf("marshaling error: %v", err)) *)
 Definition cbor_AppendInterface (dst : list N) (m : list N + list N) : list N :=
   match m with
-  | inr e => cbor_AppendString dst (str "marshaling error: " ++ e)
+  | inr e => cbor_AppendString dst (lit_marshaling_error ++ e)
   | inl j => cbor_AppendEmbeddedJSON dst j
   end.
 
 (* AppendType: [None] for a nil interface, else reflect.TypeOf(i).String() *)
 Definition cbor_AppendType (dst : list N) (t : option (list N)) : list N :=
-  match t with None => cbor_AppendString dst (str "<nil>") | Some s => cbor_AppendString dst s end.
+  match t with None => cbor_AppendString dst lit_nil | Some s => cbor_AppendString dst s end.
 
 Definition tag16 (dst : list N) (t : N) : list N :=
   ((dst ++ [N.lor majorTypeTags additionalTypeIntUint16]) ++ [to_byte (t / 256)]) ++ [to_byte (N.land t 255)].
@@ -290,4 +288,70 @@ Section Time.
     else cbor_AppendFloat64 dst (f64_of_dur d unit).
 
   Definition cbor_AppendDurations (unit : Z) (useInt : bool) := cbor_slice (cbor_AppendDuration unit useInt).
+
+  (* ---- every primitive as one datatype, and the compositions the Event /
+     Array / Context code makes of them (assumed shape of the event-level API,
+     modelled in coq/Api) ---- *)
+  Inductive prim :=
+  | PString (s : list N) | PStrings (l : list (list N))
+  | PStringer (o : option (list N)) | PStringers (l : list (option (list N)))
+  | PBytes (s : list N) | PHex (s : list N) | PJSON (s : list N) | PCBOR (s : list N)
+  | PBool (b : bool) | PBools (l : list bool)
+  | PInt (z : Z) | PInts (l : list Z)          (* Int, Int8, Int16, Int32, Int64 and their slices *)
+  | PUint (n : N) | PUints (l : list N)        (* Uint, Uint8, Uint16, Uint32, Uint64 and their slices *)
+  | PF32 (b : N) | PFs32 (l : list N) | PF64 (b : N) | PFs64 (l : list N)
+  | PTime (t : Z * N) | PTimes (l : list (Z * N))
+  | PDur (unit : Z) (useInt : bool) (d : Z) | PDurs (unit : Z) (useInt : bool) (l : list Z)
+  | PIface (m : list N + list N) | PType (t : option (list N))
+  | PIP (ip : list N) | PMAC (ha : list N) | PPrefix (ip mask : list N) | PNil.
+
+  Definition enc_prim (dst : list N) (p : prim) : list N :=
+    match p with
+    | PString s => cbor_AppendString dst s | PStrings l => cbor_AppendStrings dst l
+    | PStringer o => cbor_AppendStringer dst o | PStringers l => cbor_AppendStringers dst l
+    | PBytes s => cbor_AppendBytes dst s | PHex s => cbor_AppendHex dst s
+    | PJSON s => cbor_AppendEmbeddedJSON dst s | PCBOR s => cbor_AppendEmbeddedCBOR dst s
+    | PBool b => cbor_AppendBool dst b | PBools l => cbor_AppendBools dst l
+    | PInt z => cbor_AppendInt dst z | PInts l => cbor_AppendInts dst l
+    | PUint n => cbor_AppendUint dst n | PUints l => cbor_AppendUints dst l
+    | PF32 b => cbor_AppendFloat32 dst b | PFs32 l => cbor_AppendFloats32 dst l
+    | PF64 b => cbor_AppendFloat64 dst b | PFs64 l => cbor_AppendFloats64 dst l
+    | PTime t => cbor_AppendTime dst t | PTimes l => cbor_AppendTimes dst l
+    | PDur u i d => cbor_AppendDuration u i dst d | PDurs u i l => cbor_AppendDurations u i dst l
+    | PIface m => cbor_AppendInterface dst m | PType t => cbor_AppendType dst t
+    | PIP ip => cbor_AppendIPAddr dst ip | PMAC ha => cbor_AppendMACAddr dst ha
+    | PPrefix ip mask => cbor_AppendIPPrefix dst ip mask | PNil => cbor_AppendNil dst
+    end.
+
+  Inductive cval :=
+  | VP (p : prim)
+  | VArr (l : list cval)                      (* zerolog.Arr()....   -> 9f items ff *)
+  | VDict (kvs : list (list N * cval)).       (* zerolog.Dict()....  -> bf key value ... ff *)
+
+  (* the byte sequence the Event/Array/Context code builds: AppendArrayStart,
+     the elements (AppendArrayDelim is the identity), AppendArrayEnd; for a
+     dict AppendBeginMarker, AppendKey+value ..., AppendEndMarker *)
+  Fixpoint enc_cval (v : cval) : list N :=
+    match v with
+    | VP p => enc_prim [] p
+    | VArr l =>
+        cbor_AppendArrayEnd
+          ((fix go (l : list cval) (dst : list N) : list N :=
+              match l with [] => dst | x :: t => go t (cbor_AppendArrayDelim dst ++ enc_cval x) end) l
+             (cbor_AppendArrayStart []))
+    | VDict kvs =>
+        cbor_AppendEndMarker
+          ((fix go (l : list (list N * cval)) (dst : list N) : list N :=
+              match l with [] => dst | (k, x) :: t => go t (cbor_AppendKey dst k ++ enc_cval x) end) kvs
+             (cbor_AppendBeginMarker []))
+    end.
+
+  (* fields of one event (or of a context + an event): keys with values *)
+  Definition enc_fields (dst : list N) (kvs : list (list N * cval)) : list N :=
+    fold_left (fun dst kv => cbor_AppendKey dst (fst kv) ++ enc_cval (snd kv)) kvs dst.
+
+  Definition enc_event (kvs : list (list N * cval)) : list N :=
+    cbor_AppendLineBreak (cbor_AppendEndMarker (enc_fields (cbor_AppendBeginMarker []) kvs)).
+
+  Definition enc_context (kvs : list (list N * cval)) : list N := enc_fields (cbor_AppendBeginMarker []) kvs.
 End Time.
